@@ -136,6 +136,20 @@ func evaluateOperatorValue
   atreturn dividing-or-taking-a-remainder-by-zero-is-an-error: !leftIsNull && !rightIsNull && leftOk && rightOk && (node.Value == "/" || node.Value == "%") && rightFloat == 0.0 && !isLogicalOperator(node.Value) && !isComparisonOperator(node.Value) ==> result1 != nil
   atreturn operands-are-converted-by-the-shared-rule: leftOk ==> leftFloat == convertToFloatSafe(left)
 
+// an expression the hand-written engine cannot take is evaluated by the bridge from its expr-lang text on this row; the
+// numeric answer is the bridge's value as a number (a numeric text is read at 64 bits), anything else is an error
+func (*Expression).evaluateWithExprLang
+  props C05 C06 C13 C03 C07 C14 C20
+  option assumed_frame
+  observe v := EvaluateExpression
+  observe verr := EvaluateExpression#1
+  before EvaluateExpression the-bridge-is-asked-with-the-expressions-own-text-and-this-row: $arg1 == e.exprLangExpression && $arg2 == data
+  before ParseFloat a-numeric-text-is-read-at-full-precision: $arg1 == 64 && $arg0 == strval($v)
+  atreturn the-bridges-error-is-the-error: $verr != nil ==> result1 != nil && result0 == 0.0
+  atreturn a-float-is-its-own-value: $verr == nil && hasType($v, float64) ==> result1 == nil && result0 == realval($v)
+  atreturn an-integer-is-its-own-value: $verr == nil && (hasType($v, int) || hasType($v, int32) || hasType($v, int64)) ==> result1 == nil && result0 == float64(intval($v))
+  atreturn what-is-no-number-is-an-error: $verr == nil && !hasType($v, float64) && !hasType($v, float32) && !hasType($v, int) && !hasType($v, int32) && !hasType($v, int64) && !hasType($v, string) ==> result1 != nil && result0 == 0.0
+
 func evaluateNodeValueWithNull
   props C06 C13
   option assumed_frame
